@@ -562,6 +562,13 @@ func (k Keeper) LimitOrderBid(ctx sdk.Context) error {
 							k.DeleteUserLimitBidData(ctx, auction.DebtAssetId, auction.CollateralAssetId, premiumPerc.TruncateInt(), individualBids.BidderAddress)
 
 							k.UpdateUserLimitBidDataForAddress(ctx, individualBids, false)
+							// subtract auction.DebtToken.Amount from protocol data
+							protocolData, _ := k.GetLimitBidProtocolDataByAssetID(ctx, auction.DebtAssetId, auction.CollateralAssetId)
+							protocolData.BidValue = protocolData.BidValue.Sub(auction.DebtToken.Amount)
+							err = k.SetLimitBidProtocolData(ctx, protocolData)
+							if err != nil {
+								return err
+							}
 							return nil
 						}
 						individualBids.DebtToken.Amount = individualBids.DebtToken.Amount.Sub(auction.DebtToken.Amount)
